@@ -43,6 +43,9 @@ type tssInfo struct {
 }
 
 func (w *world) tssName() string {
+	if w.cfg["weird_names"] == 2 {
+		return "net-1x"
+	}
 	if w.cfg["tss_name"]%2 == 1 {
 		return "aaa-tss" // sorts before every other client of the chain
 	}
